@@ -59,6 +59,8 @@ pub enum Op {
     HideSheet(u8),
     UnhideSheet(u8),
     SheetColor(u8, String),
+    /// colour passed to the engine unvalidated (`Color::Rgb(text)`)
+    SheetColorRaw(u8, String),
     FrozenRows(u8, i32),
     FrozenCols(u8, i32),
     GridLines(u8, bool),
@@ -132,6 +134,7 @@ impl Op {
             Op::HideSheet(_) => "HideSheet",
             Op::UnhideSheet(_) => "UnhideSheet",
             Op::SheetColor(..) => "SheetColor",
+            Op::SheetColorRaw(..) => "SheetColorRaw",
             Op::FrozenRows(..) => "FrozenRows",
             Op::FrozenCols(..) => "FrozenCols",
             Op::GridLines(..) => "GridLines",
@@ -220,7 +223,12 @@ fn sheet_count(um: &UserModel) -> u32 {
     um.get_model().workbook.worksheets.len() as u32
 }
 
+/// Sheet selectors 0..=199 are resolved modulo the current sheet count; 200..=255 are passed
+/// through as raw (nonexistent) sheet indices -- used by the invalid-argument generators.
 pub fn res_sheet(um: &UserModel, sel: u8) -> u32 {
+    if sel >= 200 {
+        return sel as u32;
+    }
     let n = sheet_count(um).max(1);
     sel as u32 % n
 }
@@ -397,6 +405,10 @@ fn apply_inner(um: &mut UserModel<'static>, op: &Op) -> Applied {
                 Err(e) => Applied::Err(format!("harness: {e}")),
             }
         }
+        Op::SheetColorRaw(s, c) => {
+            let sh = res_sheet(um, *s);
+            r(um.set_sheet_color(sh, &Color::Rgb(c.clone())))
+        }
         Op::FrozenRows(s, n) => {
             let sh = res_sheet(um, *s);
             r(um.set_frozen_rows_count(sh, *n))
@@ -495,13 +507,10 @@ fn apply_inner(um: &mut UserModel<'static>, op: &Op) -> Applied {
         }
         Op::PasteCsv { a, csv } => {
             // a UI pastes at the selected cell: select it first (view changes are not recorded)
+            // (with invalid targets the selection cannot be set; the paste call is still made)
             let sh = res_sheet(um, a.s);
-            if let Err(e) = um.set_selected_sheet(sh) {
-                return Applied::Err(format!("select: {e}"));
-            }
-            if let Err(e) = um.set_selected_cell(a.row, a.col) {
-                return Applied::Err(format!("select: {e}"));
-            }
+            let _ = um.set_selected_sheet(sh);
+            let _ = um.set_selected_cell(a.row, a.col);
             r(um.paste_csv_string(&area(um, a), csv))
         }
         Op::AutofillRows { a, to_row } => r(um.auto_fill_rows(&area(um, a), *to_row)),
@@ -603,7 +612,7 @@ fn cf_index(um: &UserModel, sheet: u32, idx: u8) -> u32 {
         .get(sheet as usize)
         .map(|w| w.conditional_formatting.len())
         .unwrap_or(0);
-    if n == 0 {
+    if n == 0 || idx >= 200 {
         idx as u32
     } else {
         idx as u32 % n as u32
